@@ -664,6 +664,10 @@ theorem step_good (cfg : Cfg) (n : Node) (op : Op) (hg : GenInv n) (h : Rec n) (
       refine ⟨hnr_case rfl, ?_⟩
       simp only [step, isSessOp]
       split <;> first | exact h | exact rec_same (n := n) (fun i => rfl) rfl rfl rfl h
+    | sdrop sid =>
+      refine ⟨hnr_case rfl, ?_⟩
+      simp only [step, isSessOp]
+      split <;> first | exact h | exact rec_same (n := n) (fun i => rfl) rfl rfl rfl h
     | resume rid newRid =>
       refine ⟨hnr_case rfl, ?_⟩
       simp only [step, isSessOp]
